@@ -544,6 +544,48 @@ def run(scn: Dict[str, Any]) -> List[Dict[str, Any]]:
                     env.open_gate(key)
                 if op == "gate":
                     loop.settle()
+            elif op in ("fin_any", "fin_any_"):
+                # finish the k-th (mod count) currently waiting body, in start order
+                waiting = [i for i, f in env.body_fut.items() if not f.done()]
+                if waiting:
+                    i = waiting[step[1] % len(waiting)]
+                    env.rec("fin", m=i, s=step[2])
+                    env.body_fut[i].set_result(step[2])
+                else:
+                    env.rec("noop", s="fin_any")
+                if op == "fin_any":
+                    loop.settle()
+            elif op == "fin_all":
+                while True:
+                    waiting = [i for i, f in env.body_fut.items() if not f.done()]
+                    if not waiting:
+                        break
+                    env.rec("fin", m=waiting[0], s=step[1])
+                    env.body_fut[waiting[0]].set_result(step[1])
+                    loop.settle()
+            elif op in ("gate_any", "gate_any_"):
+                waiting = [k_ for k_, f in env.gates.items() if not f.done() and k_ not in env.opened_gates]
+                if waiting:
+                    key = waiting[step[1] % len(waiting)]
+                    env.rec("gate", m=key[1], s=key[0], x=key[2], y=1)
+                    env.open_gate(key)
+                else:
+                    env.rec("noop", s="gate_any")
+                if op == "gate_any":
+                    loop.settle()
+            elif op == "gate_all":
+                while True:
+                    waiting = [k_ for k_, f in env.gates.items() if not f.done() and k_ not in env.opened_gates]
+                    if not waiting:
+                        break
+                    key = waiting[0]
+                    env.rec("gate", m=key[1], s=key[0], x=key[2], y=1)
+                    env.open_gate(key)
+                    loop.settle()
+            elif op == "adv_rel":
+                target = loop.time() + step[1] / 10.0
+                while _adv(env, loop, target):
+                    pass
             elif op == "settle":
                 loop.settle()
             elif op == "step":
@@ -555,7 +597,7 @@ def run(scn: Dict[str, Any]) -> List[Dict[str, Any]]:
                     pass
             elif op == "probe":
                 loop.settle()
-                env.rec("probe")
+                env.rec("probe", x=step[1] if len(step) > 1 else 1)
             else:
                 raise ValueError(f"unknown step {step!r}")
         loop.settle()
